@@ -22,13 +22,13 @@ def gen_world(rng, stress_ids=False):
         cfgs = [rng.randrange(NPRED) for _ in range(rng.choice([0, 0, 0, 1, 1, 2]))]
         aid = None
         if rng.random() < (0.5 if stress_ids else 0.12):
-            aid = rng.choice([0, 1, 2, 3, 5, 200, 253, 254, 255, rng.randrange(256)] if stress_ids else [3, 5, 20, 100, 200, rng.randrange(250)])
+            aid = rng.choice([0, 1, 2, 3, 5, 200, 253, 254, 255, rng.randrange(256), rng.randrange(256), rng.choice([256, 257, 300, 511, 65536 + 3])] if stress_ids else [3, 5, 20, 100, 200, rng.randrange(250)])
         comps = []
         for c in rng.sample(range(10), rng.randrange(1, 7)):
             ccfgs = [rng.randrange(NPRED) for _ in range(rng.choice([0, 0, 0, 1, 2]))]
             cid = None
             if rng.random() < (0.4 if stress_ids else 0.06):
-                cid = rng.choice([0, 1, 2, 7, 254, 255, rng.randrange(256)] if stress_ids else [7, 50, rng.randrange(250)])
+                cid = rng.choice([0, 1, 2, 7, 254, 255, rng.randrange(256), rng.randrange(256), rng.choice([256, 300, 1000])] if stress_ids else [7, 50, rng.randrange(250)])
             comps.append(dict(cfgs=ccfgs, id=cid, name=c))
         archs.append(dict(cfgs=cfgs, id=aid, name=a, comps=comps))
     return archs
